@@ -1057,6 +1057,23 @@ def fromV3FormPropO {V : Type} (bin : List String) (objReq : List String) (name 
                      sc := conv fromV3FormTable h.sc },
            items := (kidItems kids).bind (fromV3SO bin), schema := none }
 
+/-- how fromV3RequestBodies updates its slice results, statement by statement in source order (regenerated from the
+    code as `Gen.requestBodiesUpdates`): the reference branch appends the reference, the media-type loop *replaces*
+    `formParameters` by FromV3RequestBodyFormData of the media type and appends one body parameter -/
+def requestBodiesUpdates : List (String × String) :=
+  [("bodyOrRefParameters", "append"), ("formParameters", "replace:FromV3RequestBodyFormData"),
+   ("bodyOrRefParameters", "append")]
+
+/-- the statements that update a result -/
+def updatesOf (tbl : List (String × String)) (result : String) : List String :=
+  (tbl.filter (fun r => r.1 == result)).map (·.2)
+
+/-- a slice result after the media-type loop, from what the passes computed for it: replaced by every pass (the last
+    pass wins) or appended to (every pass contributes) -/
+def loopResult {α : Type} (kinds : List String) (passes : List (List α)) : List α :=
+  if kinds == ["replace:FromV3RequestBodyFormData"] then passes.foldl (fun _ r => r) []
+  else passes.foldl (fun acc r => acc ++ r) []
+
 /-- fromV3RequestBodies ranges over the media types of the request body and *replaces* `formParameters` by
     FromV3RequestBodyFormData of every form media type: with both form media types (one form schema object under
     both) the kept result is the one of the second pass -/
